@@ -92,7 +92,7 @@ def run(case, ctx, rng):
             blk = Bits(B, bitorder=bo)
             snap = (blk.ival, blk.size)
             e7 = call(obj.enc, blk)
-            if not is_exc(e7, 'TypeError', 'AssertionError'):           # (AES takes bytes only)
+            if not (c.startswith('aes') and is_exc(e7)):           # (AES takes bytes only: whatever error it raises for a Bits block is a refusal)
                 ctx.eq('dec(enc(B))==B', e7, e, block='given as Bits', **det)
                 ctx.eq('dec(enc(B))==B', (blk.ival, blk.size), snap, block='the caller\'s Bits block is left unchanged by enc', **det)
                 ctx.eq('dec(enc(B))==B', call(obj.enc, blk), e, block='the same Bits block encrypted again', **det)
